@@ -1,0 +1,22 @@
+//go:build verif
+
+package goja
+
+// Spec functions for the ordered map behind Map, Set and the symbol tables (property C18).
+
+// specMapEndsOK: the ends of the iteration list are live entries without a neighbour beyond them.
+func specMapEndsOK(m *orderedMap) bool {
+	if m == nil {
+		return false
+	}
+	if (m.iterFirst == nil) != (m.iterLast == nil) {
+		return false
+	}
+	if m.iterFirst != nil && (m.iterFirst.key == nil || m.iterFirst.iterPrev != nil) {
+		return false
+	}
+	if m.iterLast != nil && (m.iterLast.key == nil || m.iterLast.iterNext != nil) {
+		return false
+	}
+	return true
+}
